@@ -73,6 +73,7 @@ def judge(case, part):
     kind, observed = read_real(path, sheet)
     part.validated += 1
     part.outcome(kind)
+    part.state((kind, str(observed)))
     special = any(c != "" and (c != c.strip() or "  " in c or "\t" in c or "\n" in c) for r in expected for c in r)
     if special or features:
         part.nontrivial += 1
@@ -225,6 +226,5 @@ def run(ctx):
                  "small tables": "all tables of the shapes %s over %s; all 1x1 / 1x2%s tables over the full 13-cell alphabet" % (shapes, SMALL, "" if quick else " / 2x1 / 2x2"),
                  "sheets": "1..3 sheets x requested sheet 1..3 in 3 encodings", "faults": "not a zip, no content.xml, content.xml cut at every tag boundary, 7 malformed repeat counts for columns and rows, missing sheets, archive truncated at every %s byte" % ("64th" if quick else "single")}
     ctx.rule = ("every case writes a real .ods file with the independent producer (self-checked by an independent decoder) and reads it with rowio.ods_rows (and cutplace.rows for rectangular tables); "
-                "non-trivial = table with whitespace-sensitive cells or any optional feature switched on, and every fault case; states not applicable (distinct outcomes counted)")
+                "non-trivial = table with whitespace-sensitive cells or any optional feature switched on, and every fault case; states = distinct logical tables returned by the reader")
     ctx.assumptions = ["paragraphs of one cell are joined by a line break", "ElementTree and zipfile are executed, not modelled"]
-    ctx.total.states.add(hash("C15"))
